@@ -8,6 +8,9 @@ R4.4 work-list discipline of the LR(1) closure (Itemset::close): a pending entry
      taken, every taken entry is cleared, and an entry is scheduled exactly when Itemset::add reports a change
 R4.5 in the closure's lookahead computation FIRST(Y) of a symbol behind the dot is merged together with a test of
      nullable(Y) of the same Y (= R17.4's rule applied to lrtable::itemset)
+R4.6 recovery on: every path of the Error arm that calls the recoverer pushes exactly one error - the looked-up state, the
+     lexeme at the lookup index, the recoverer's repairs - whether or not repairs were found (= R7.1's rule, judged for
+     this property's last sentence: an error that is not reported cannot be 'at that same lexeme')
 """
 from mirlib import *
 from lrstep import *
@@ -18,7 +21,7 @@ META = {
                    'the state that was looked up and the lexeme at the very input index used for the lookup, with no repairs, '
                    'and the parse returns None without calling the recoverer (R4.1); the lexeme reported at end of input is a '
                    'faulty zero-length EOF lexeme positioned at the end of the last real lexeme (R4.2); action() returns the '
-                   'decoded table cell and nothing else (R4.3). NOT decided: that the state the parser is in rejects exactly '
+                   'decoded table cell and nothing else (R4.3); with recovery on the arm reports one error at the same state and lexeme on every path, repairs found or not (R4.6). NOT decided: that the state the parser is in rejects exactly '
                    'at the viable-prefix boundary - that is correctness of the table (C01).',
 }
 
@@ -228,6 +231,10 @@ def run(facts, res):
     r42(facts, res)
     r43(facts, res)
     r44(facts, res)
+    # with recovery on: the arm that calls the recoverer reports exactly one error, at the looked-up state and lexeme,
+    # whether or not repairs were found (the rule is R7.1's, judged here for C04's last sentence)
+    import c07
+    c07.r71(facts, res, 'R4.6')
     # R4.5 = C17's R17.4 applied to the closure's lookahead computation: FIRST(Y) of a symbol behind the dot is merged into the
     # context together with a test of nullable(Y) of the same Y
     import c17
